@@ -207,6 +207,93 @@ theorem ctorDt_den (d : PyDt) (t : TI) (h : ctorDt (.dt d) = .ok (some t)) :
   cases h
   exact TI.den_instant rfl
 
+/-! ### observe – mutate – observe: the answers follow the current bounds
+
+The model's only time state is the `dt` value, so after any history of `set_dt` / `buffer_dt` /
+`strip_dt` calls (in place or on the returned copy) every predicate answers as for a freshly built
+shape with the current bounds. -/
+
+/-- `dt` argument that rebuilds given bounds from scratch -/
+def argOf : Option TI → DtArg
+  | none => .none
+  | some t => .ti t
+
+/-- **fresh-twin law**: a shape built from scratch with the bounds a history left behind has exactly the
+    `dt` the mutated shape has — and all gates are functions of `dt` -/
+theorem hist_fresh (dt : Option TI) (ms : List Mut) :
+    ctorDt (argOf (applyMuts dt ms)) = .ok (applyMuts dt ms) := by
+  cases applyMuts dt ms <;> rfl
+
+/-- a shape without time bounds can not be buffered (`ValueError`) -/
+theorem bufferDt_none (b : Int) : bufferDt none b = .error "ERR:Value" := rfl
+
+/-- **buffer_dt** widens both ends (or narrows them, for a negative buffer that leaves `end ≥ start`)
+    and the result is a well-formed interval -/
+theorem bufferDt_ok (t : TI) (b : Int) (hb : t.start - b ≤ t.stop + b) :
+    bufferDt (some t) b = .ok (some ⟨t.start - b, t.stop + b⟩) ∧ WF ⟨t.start - b, t.stop + b⟩ := by
+  refine ⟨?_, hb⟩
+  have : ¬ (t.stop + b < t.start - b) := by omega
+  simp [bufferDt, truthy, TI.mk?, this]
+
+/-- a negative buffer that would put the end before the start raises, nothing changes -/
+theorem bufferDt_err (t : TI) (b : Int) (hb : t.stop + b < t.start - b) :
+    bufferDt (some t) b = .error "ERR:Value" := by
+  simp [bufferDt, truthy, TI.mk?, hb]
+
+/-- a zero-width buffer (`timedelta(0)`, falsy in Python) is the identity -/
+theorem bufferDt_zero (t : TI) (hw : WF t) : bufferDt (some t) 0 = .ok (some t) := by
+  have h := (bufferDt_ok t 0 (by unfold WF at hw; omega)).1
+  simpa using h
+
+/-- **instant → interval**: buffering the instant `x` by `b > 0` gives the right-open interval
+    `[x-b, x+b)` — a set with more than one instant, no longer the single point -/
+theorem bufferDt_instant_den (x b : Int) (hb : 0 < b) :
+    ∃ r, bufferDt (some ⟨x, x⟩) b = .ok (some r) ∧
+      den r = Set.Ico (((x - b : Int) : ℚ)) (((x + b : Int) : ℚ)) := by
+  refine ⟨⟨x - b, x + b⟩, (bufferDt_ok ⟨x, x⟩ b (by simp only; omega)).1, ?_⟩
+  exact TI.den_proper (t := ⟨x - b, x + b⟩) (by simp only; omega)
+
+/-- **interval → instant**: narrowing `[s, e)` by half its (even) length leaves the single instant -/
+theorem bufferDt_to_instant (s h : Int) (_hh : 0 ≤ h) :
+    ∃ r, bufferDt (some ⟨s, s + 2 * h⟩) (-h) = .ok (some r) ∧ den r = {(((s + h : Int)) : ℚ)} := by
+  refine ⟨⟨s + h, s + h⟩, ?_, TI.den_instant rfl⟩
+  have := (bufferDt_ok ⟨s, s + 2 * h⟩ (-h) (by simp only; omega)).1
+  simp only at this
+  rw [this]
+  congr 3 <;> omega
+
+/-- every mutator leaves a well-formed interval (or none) behind, whatever the history -/
+theorem applyMuts_wf (dt : Option TI) (ms : List Mut) (h0 : ∀ t, dt = some t → WF t)
+    (hargs : ∀ m ∈ ms, ∀ t, m = .setDt (.ti t) → WF t) :
+    ∀ t, applyMuts dt ms = some t → WF t := by
+  induction ms generalizing dt with
+  | nil => exact h0
+  | cons m ms ih =>
+    have hrest : ∀ m' ∈ ms, ∀ t, m' = .setDt (.ti t) → WF t :=
+      fun m' hm' => hargs m' (List.mem_cons_of_mem _ hm')
+    unfold applyMuts
+    cases hm : applyMut dt m with
+    | error e => simp only; exact ih dt h0 hrest
+    | ok d =>
+      simp only
+      refine ih d ?_ hrest
+      intro t ht; subst ht
+      cases m with
+      | stripDt => simp [applyMut, stripDt] at hm
+      | setDt a =>
+        simp only [applyMut, setDt_eq_ctorDt] at hm
+        obtain ⟨r, hr, hwf⟩ := ctorDt_wf a (fun t' e => hargs _ (List.mem_cons_self) t' (by rw [e]))
+        rw [hr] at hm; cases hm; exact hwf t rfl
+      | bufferDt b =>
+        simp only [applyMut] at hm
+        cases dt with
+        | none => simp [bufferDt, truthy] at hm
+        | some t0 =>
+          by_cases hb : t0.stop + b < t0.start - b
+          · rw [bufferDt_err t0 b hb] at hm; cases hm
+          · have hb' : t0.start - b ≤ t0.stop + b := by omega
+            rw [(bufferDt_ok t0 b hb').1] at hm; cases hm; exact hb'
+
 /-! ### non-vacuity -/
 
 /-- two shapes that intersect in space: overlapping bounds → `true`; touching bounds (right-open) →
@@ -227,5 +314,14 @@ example :
 /-- 01:00 at UTC+1 and a naive 00:00 are the same instant (unit: hours) -/
 example : ctorDt (.dt ⟨1, some 1⟩) = ctorDt (.dt ⟨0, none⟩) ∧ ctorDt (.dt ⟨0, none⟩) = .ok (some ⟨0, 0⟩) := by
   decide
+
+/-- the history of the seeded defect's demo: an instant, widened by one hour on each side, then asked
+    about a time half an hour later: contained -/
+example :
+    applyMuts (some ⟨12, 12⟩) [.bufferDt 1] = some ⟨11, 13⟩ ∧
+    containsTime (applyMuts (some ⟨12, 12⟩) [.bufferDt 1]) (.at 12) = true ∧
+    containsTime (some ⟨12, 12⟩) (.ti ⟨12, 13⟩) = false ∧
+    containsTime (applyMuts (some ⟨12, 12⟩) [.bufferDt 1]) (.ti ⟨12, 13⟩) = true ∧
+    applyMuts (some ⟨10, 14⟩) [.bufferDt (-2), .bufferDt (-1), .stripDt, .bufferDt 5] = none := by decide
 
 end GV.ST
